@@ -18,7 +18,8 @@ for cid in ids:
         replay_cmd_template='./check replay {path}',
         engine='pyvc',
         level_claimed=dict(category=P.get('level', 'proof'), text=P['level_text'], design_ref=P.get('design_ref', f'DESIGN.md 5/{cid}')),
-        level_note=P['level_note'],
+        level_note=P['level_note'] + ((' Callee contracts used as hypotheses are verified by the same check with their whole '
+                                       'contract (dependency plan): ' + ', '.join(P['deps']) + '.') if P.get('deps') else ''),
         technique=P.get('technique', 'contract-based deductive verification: VCs generated from the AST of the real '
                         'functions against sidecar contracts, discharged by z3/cvc5; failing obligations replayed natively')))
 na = [dict(property_id=c, reason=NOT_APPLICABLE.get(c, 'check not built yet (build in progress)')) for c in ids
